@@ -43,6 +43,7 @@ func runC12(p *Prog, r *Report) {
 	c12ZoneDropped(p, r)
 	prefixBitsVsConstant(p, r, "R12.8-family-dependent-host-test")
 	c12QuoteStripping(p, r, "R12.9-quote-unwrapping")
+	c12SignedParse(p, r, "R12.10-no-plus-sign")
 }
 
 // R12.7: netip.ParseAddr accepts a zoned IPv6 address ("fe80::1%eth0"); netip.PrefixFrom silently drops the zone. A
@@ -883,3 +884,81 @@ func c12QuoteStripping(p *Prog, r *Report, rule string) {
 }
 
 func strconvQuote(s string) string { return "`" + s + "`" }
+
+// R12.10: strconv.ParseInt / Atoi accept a leading '+'. The documented literals allow at most a '-' sign, so a text parser
+// that hands a piece of its input to them must have excluded '+' itself (a comparison of an input byte with '+', or a
+// prefix test). (ParseUint takes no sign and needs nothing.)
+func c12SignedParse(p *Prog, r *Report, rule string) {
+	n := 0
+	for _, fn := range p.Funcs {
+		if fnPkgPath(fn) != pTypes || fn.Parent() != nil {
+			continue
+		}
+		var strParam *ssa.Parameter
+		for _, pr := range fn.Params {
+			if basicKind(pr.Type()) == types.String {
+				strParam = pr
+			}
+		}
+		if strParam == nil {
+			continue
+		}
+		fromInput := func(v ssa.Value) bool {
+			for i := 0; i < 6 && v != nil; i++ {
+				if v == ssa.Value(strParam) {
+					return true
+				}
+				switch x := v.(type) {
+				case *ssa.Slice:
+					v = x.X
+				case *ssa.Phi:
+					for _, e := range x.Edges {
+						if e == ssa.Value(strParam) {
+							return true
+						}
+					}
+					return false
+				default:
+					return false
+				}
+			}
+			return false
+		}
+		for _, cl := range callsIn(fn) {
+			f := cl.Common().StaticCallee()
+			if f == nil || fnPkgPath(f) != "strconv" || (f.Name() != "ParseInt" && f.Name() != "Atoi") || len(cl.Common().Args) == 0 || !fromInput(cl.Common().Args[0]) {
+				continue
+			}
+			n++
+			excludesPlus := false
+			forEachInstr(fn, func(in ssa.Instruction) {
+				switch x := in.(type) {
+				case *ssa.BinOp:
+					if x.Op == token.EQL || x.Op == token.NEQ {
+						for _, o := range []ssa.Value{x.X, x.Y} {
+							if k, ok := constInt(o); ok && k == '+' {
+								excludesPlus = true
+							}
+						}
+					}
+				case ssa.CallInstruction:
+					if g := x.Common().StaticCallee(); g != nil && fnPkgPath(g) == "strings" && (g.Name() == "HasPrefix" || g.Name() == "ContainsAny" || g.Name() == "ContainsRune" || g.Name() == "IndexByte") {
+						for _, a := range x.Common().Args {
+							if s, ok := constString(a); ok && strings.Contains(s, "+") {
+								excludesPlus = true
+							}
+							if k, ok := constInt(a); ok && k == '+' {
+								excludesPlus = true
+							}
+						}
+					}
+				}
+			})
+			r.Check(excludesPlus, rule, fnQual(fn)+":"+f.Name(), p.pos(cl.Pos()), "a leading '+' is excluded before the signed conversion",
+				fnShort(fn)+" hands part of its input to strconv."+f.Name()+", which accepts a leading '+', and never looks for one: `+1.0`-style literals are accepted although the documented syntax has only an optional '-'")
+		}
+	}
+	if n == 0 {
+		r.Undec(rule, "types:signed-conversions", "-", "no strconv.ParseInt/Atoi on input text found in package types (anchor vanished)")
+	}
+}
